@@ -84,3 +84,18 @@ Theorem C18_mgda_not_longer_than_mean : forall n J eps iters, wfmat n J ->
   dotR (agg_mean RN J) (agg_mean RN J).
 Proof. exact mgda_not_longer_than_mean. Qed.
 Print Assumptions C18_mgda_not_longer_than_mean.
+
+(* ---- MGDA on two rows (added): for every epsilon and every budget >= 1 the output IS the minimum-
+   norm point of the segment between the two rows ---- *)
+From TJ.proofs Require Import PublishedProofs.
+Theorem C18_mgda_two_rows : forall n g1 g2 eps iters, length g1 = n -> length g2 = n ->
+  (1 <= iters)%nat ->
+  let J := [g1; g2] in
+  let x1 := vmR n (fst (mgda_step RN (gramR J) (mean_weights RN 2))) J in
+  agg_mgda RN eps iters J = x1 /\
+  dotR (agg_mgda RN eps iters J) (agg_mgda RN eps iters J) = dotR x1 x1 /\
+  (forall t, 0 <= t <= 1 ->
+     dotR x1 x1 <= dotR (vaddR (vscaleR (1 - t) g1) (vscaleR t g2))
+                        (vaddR (vscaleR (1 - t) g1) (vscaleR t g2))).
+Proof. exact mgda_two_rows_output. Qed.
+Print Assumptions C18_mgda_two_rows.
